@@ -23,6 +23,17 @@ def run(prop, tier, seed, ctx):
         ctx.add_tlc(res, "all histories " + cfg)
         for r in res.records:
             hists[json.dumps(r["hist"])] = r
+    # a slot the model of the code does NOT reset: the interpreter's own module objects, which executed student code can
+    # assign to.  TLC shows the contract failing on the model; the histories are replayed like all others.
+    res = tlc.run("MC_Grading", "MC_Grading_realmods_q.cfg", workers=1, timeout=600, cont=True)
+    ctx.add_tlc(res, "all histories MC_Grading_realmods_q.cfg (submission assigning to a real module)")
+    if [e for e in res.errors if "violated" not in e and "behavior" not in e.lower()] or not res.records:
+        raise MachineryError("TLC error on MC_Grading_realmods_q.cfg: %s" % res.errors[:3])
+    if "PristineAtStart" in res.violated:
+        ctx.violation("C13|model|real_modules", "TLC: PristineAtStart fails on the model of the code - nothing resets the real module "
+                      "objects a submission assigned to (history realmut, then mathy)", {"cfg": "MC_Grading_realmods_q.cfg"})
+    for r in res.records:
+        hists[json.dumps(r["hist"])] = r
     recs = list(hists.values())
     pairs = sorted({tuple(p) for r in recs for p in r["hist"]})
     base = dict(shard_map("bind.grading", "baseline_chunk", [list(p) for p in pairs], procs=12, chunk=1))
@@ -39,6 +50,11 @@ def run(prop, tier, seed, ctx):
         if m["kind"] == "harness-crash":
             raise MachineryError("history %s crashed the harness: %s" % (m["hist"], m["detail"]))
         culprit = sorted({p[0] for p in m["previous"]})
+        if "real_modules" in m["dirty_at_start"] and any(p[1] == "realmut" for p in m["previous"]):
+            ctx.violation("C13|real-module-mutated-by-earlier-submission", "grading %s at position %d of history %s differs from its "
+                          "fresh-interpreter result in %s: observed %s baseline %s" % (m["pair"], m["position"], m["hist"], m["fields"],
+                          json.dumps(m["observed"])[:200], json.dumps(m["baseline"])[:200]), m)
+            continue
         ctx.violation("C13|%s|after=%s" % ("+".join(m["fields"]), "+".join(culprit) or "-"),
                       "grading %s at position %d of history %s differs from its fresh-interpreter result in %s: observed %s baseline %s (slots dirty at start: %s)" % (
                           m["pair"], m["position"], m["hist"], m["fields"], json.dumps(m["observed"])[:200],
